@@ -170,7 +170,7 @@ def _shard(arg):
 def run(ctx):
     # half of the budget for the strict stratum, the other half for the three deviation strata
     layout = ['S', 'G', 'V', 'GV', 'S', 'S', 'G', 'V'] * 2 if ctx.quick else ['S', 'G', 'V', 'GV', 'S', 'S', 'G', 'V'] * 20
-    per_shard = 1900 if ctx.quick else 3800
+    per_shard = 1750 if ctx.quick else 3800
     jobs = [('hyp', stratum, ctx.derive_seed('ja3', index), per_shard) for index, stratum in enumerate(layout)]
     jobs.append(('fixed',))
     return pool.run_shards(_shard, jobs)
